@@ -251,18 +251,16 @@ def d2_guard_normalises(ctx, guard, gname, gmode):
     if not mode_tests:
         ctx.bad('R-DOM', 'D3', guard, None, 'mode-condition', 'guard classifies the open mode',
                 detail='no test on the access-mode parameter: cannot tell reading from writing')
-    for t in mode_tests:
-        # the part of the test that mentions the mode
+    for t in mode_tests[:1]:
+        # for which modes can the guard raise at all?  (mini path evaluation over the mode value;
+        # tests on the name are unknown and explored both ways)
         res = {}
         for m in WRITE_MODES + ['r']:
-            class _T(ast.NodeTransformer):
-                pass
-            v = _fold_partial(t.test, gmode, m)
-            res[m] = v
+            res[m] = guard_active(guard.node.body, gmode, m)
         unguarded = [m for m in WRITE_MODES if res[m] is False]
         unknown = [m for m in WRITE_MODES if res[m] is None]
         construct = f'mode-condition::{norm(t.test)[:60]}'
-        inst = f'guard mode condition `{norm(t.test)[:70]}` covers every write-capable mode'
+        inst = f'guard mode condition `{norm(t.test)[:70]}` leaves the guard active for every write-capable mode'
         if unguarded:
             ctx.bad('R-DOM', 'D3', guard, t, 'mode-condition', inst,
                     detail=f'modes that can write but bypass the guard: {unguarded}')
@@ -332,6 +330,38 @@ def d2_guard_normalises(ctx, guard, gname, gmode):
                'guard treats protected directories as protecting their content (containment test)',
                detail='equality only: files under the protected values/ and indices/ directories of a '
                       'ragged array are not protected')
+
+
+def guard_active(stmts, gmode, mode):
+    """Can a `raise` be reached for this mode value?  True / False / None."""
+    def walk(body):
+        # -> 'raise' | 'stop' (returned) | 'fall' | 'unknown'
+        for st in body:
+            if isinstance(st, ast.Raise):
+                return 'raise'
+            if isinstance(st, ast.Return):
+                return 'stop'
+            if isinstance(st, ast.If):
+                v = _fold_partial(st.test, gmode, mode) if mentions(st.test, gmode) else None
+                if mentions(st.test, gmode) and v is None:
+                    return 'unknown'
+                branches = [st.body] if v is True else ([st.orelse] if v is False else [st.body, st.orelse])
+                outs = [walk(b) for b in branches]
+                if 'raise' in outs:
+                    return 'raise'
+                if 'unknown' in outs:
+                    return 'unknown'
+                if all(o == 'stop' for o in outs):
+                    return 'stop'
+                continue
+            if isinstance(st, (ast.For, ast.While, ast.With, ast.Try)):
+                o = walk(st.body)
+                if o in ('raise', 'unknown'):
+                    return o
+                continue
+        return 'fall'
+    o = walk(stmts)
+    return True if o == 'raise' else (None if o == 'unknown' else False)
 
 
 def _fold_partial(test, gmode, mode):
